@@ -354,7 +354,10 @@ fn execute(sc: &Value) -> RunReport {
             ctx.probe("global_denied");
         }
         let tv = call(&entry.0, &key);
-        if !entry.1 && tv != verdict {
+        // compared as admitted / denied: when both worlds deny, which level names itself as the
+        // reason depends on the order of the checks and on refill rounding at exact window
+        // boundaries, and no budget of the key was consumed by anyone else either way
+        if !entry.1 && (tv == "ok") != (verdict == "ok") {
             ctx.violate("C14.isolation.verdict_depends_on_other_keys", target.clone(), format!("t={now} key {key}: verdict {verdict} with other traffic, {tv} alone"));
         }
     }
